@@ -312,6 +312,8 @@ func c04Run(s c04Scn) (c04Obs, []Mon) {
 		rev.Spec.Pipeline = append(rev.Spec.Pipeline, ps)
 	}
 	reqCanon := map[int][]string{}
+	lastStep := -1
+	var lastSel map[string]*fnv1.ResourceSelector
 	lastFatal := map[int]bool{}
 	inner := composite.FunctionRunnerFn(func(_ context.Context, name string, req *fnv1.RunFunctionRequest) (*fnv1.RunFunctionResponse, error) {
 		i := stepIdx[name]
@@ -348,6 +350,45 @@ func c04Run(s c04Scn) (c04Obs, []Mon) {
 		}
 		sort.Slice(r.Creds, func(a, b int) bool { return r.Creds[a].Name < r.Creds[b].Name })
 		obs.Reqs = append(obs.Reqs, r)
+		// C04 monitor, evaluated on the real request: the extra resources handed to this call
+		// are exactly the cluster objects matching the requirements this step returned on
+		// its previous call (none on its first call)
+		if lastStep != i {
+			lastStep, lastSel = i, nil
+		}
+		want := map[string][]string{}
+		for k, sel := range lastSel {
+			ns := []string{}
+			for _, e := range s.Cluster {
+				if e.Kind != sel.GetKind() {
+					continue
+				}
+				if sel.GetMatchLabels() == nil {
+					if e.Name == sel.GetMatchName() {
+						ns = append(ns, e.Name)
+					}
+					continue
+				}
+				ok := true
+				for lk, lv := range sel.GetMatchLabels().GetLabels() {
+					if e.Labels[lk] != lv {
+						ok = false
+					}
+				}
+				if ok {
+					ns = append(ns, e.Name)
+				}
+			}
+			sort.Strings(ns)
+			want[k] = ns
+		}
+		got := map[string][]string{}
+		for _, e := range r.Extra {
+			got[e.Key] = e.Names
+		}
+		if fmt.Sprint(got) != fmt.Sprint(want) {
+			mons = append(mons, Mon{Sig: "C04:extra-resources-not-matching-requirements", Why: fmt.Sprintf("call %d (step %d): handed extra resources %v, the step's latest requirements select %v", len(obs.Reqs)-1, i, got, want)})
+		}
 		if why := c04BetaRoundTrip(req); why != "" {
 			mons = append(mons, Mon{Sig: "C04:beta-reencoding-lossy", Why: why})
 		}
@@ -371,6 +412,7 @@ func c04Run(s c04Scn) (c04Obs, []Mon) {
 					fatal = true
 				}
 			}
+			lastSel = rsp.GetRequirements().GetExtraResources()
 			reqCanon[i] = append(reqCanon[i], canon)
 			lastFatal[i] = fatal
 			if why := c04BetaRspRoundTrip(rsp); why != "" {
